@@ -621,6 +621,22 @@ def c02_r6(ctx: Ctx, rule):
                                 v = None
                             if isinstance(v, NS):
                                 special[k] = v
+    # the same special cases kept as a table {declared URI: library namespace} that the reader indexes
+    for rq2 in [q2 for q2 in ctx.helper_closure(rq) if q2.startswith(XM + ".")]:
+        for n in walk_function(ctx.fn(rq2).node):
+            tbl = None
+            if isinstance(n, ast.Subscript) and isinstance(n.ctx, ast.Load):
+                tbl = n.value
+            elif isinstance(n, ast.Call) and isinstance(n.func, ast.Attribute) and n.func.attr == "get":
+                tbl = n.func.value
+            if tbl is None or not isinstance(tbl, (ast.Name, ast.Attribute)):
+                continue
+            try:
+                tv = ctx.eval_in(rq2, tbl)
+            except AnalysisError:
+                continue
+            if isinstance(tv, dict) and tv and all(isinstance(k, str) and isinstance(v, NS) for k, v in tv.items()):
+                special.update(tv)
     for ns, what in ((xsd, "xsd"), (prov, "prov")):
         w = written.get(ns.prefix)
         res.ob("writer declares %s as %r; reader special cases: %s" % (what, w, {k: v.prefix for k, v in special.items()}))
